@@ -364,7 +364,10 @@ def stream_shared(ctx):
         sig, comments, st = lex(text)
         alltext = [x for cd, fd in meta[v] for x in cd + fd]
         shape = None
-        if any("\n\n" in x for x in alltext):
+        def rendered(ds):
+            # the text between `/**` and `*/` as parse_docs lays it out
+            return ds[0] if (len(ds) == 1 and "\n" in ds[0]) else "\n".join(" *" + d for d in ds)
+        if any("\n\n" in rendered(ds) for cd_, fd_ in meta[v] for ds in (cd_, fd_) if ds):
             shape = "blankline_in_blockdoc"
         elif any("export type " in x for x in alltext):
             shape = "fielddoc_mentions_decl"
@@ -381,7 +384,7 @@ def stream_shared(ctx):
         if bad:
             e = next((e for e in ctx.known if e.get("match", {}).get("shape") == shape), None) if shape else None
             if e:
-                culprit = [x for x in alltext if ("\n\n" in x or "export type " in x)][:1]
+                culprit = [ds for cd_, fd_ in meta[v] for ds in (cd_, fd_) if ds and ("\n\n" in rendered(ds) or any("export type " in x for x in ds))][:1]
                 known[e["id"]] = (e, bad + ": docs " + json.dumps(culprit, ensure_ascii=False))
             else:
                 ctx.violation(bad, dict(case, docs=meta[v]), {"file": text}); fails += 1
